@@ -293,6 +293,19 @@ def run_history(ctx, hid, spec, hist, hs):
                         tag = 'KF-C04-whole-column-beyond-used-range'
                 report(r, ID, tag, {'history': hist, 'step': step, 'cell': [si, a], 'spec': spec, 'hashseed': hs, 'hid': hid},
                        o_h.brief(), o_f.brief(), monitor='edit-and-recalculate')
+        # now and then the executor is given its class again after it has answered (a reloaded model, the same class object): the
+        # overrides made so far belong to the executor and stay in force for the very next query
+        if hrng.random() < 0.25:
+            again = pipeline.guarded(lambda: ex.set_executed_class(class_object=book.cls), 'set_cells')
+            r.count('executed_class_set_again_after_a_query')
+            for (si, a) in qs[:8]:
+                rr, cc = wbspec.rc(a)
+                o_h = pipeline.guarded(lambda: ex.get_cell(Cell(si, cc - 1, rr - 1)).value, 'evaluate')
+                o_f = fresh.value(si, a)
+                r.ev()
+                if not again.ok or not same_outcome(o_h, o_f):
+                    report(r, ID, None, {'history': hist, 'step': step, 'cell': [si, a], 'spec': spec, 'hashseed': hs, 'hid': hid, 'what': 'first query after set_executed_class was called again'},
+                           o_h.brief() if again.ok else again.brief(), o_f.brief(), monitor='edit-and-recalculate')
         if twice or formula_overridden:
             r.nt((hid, step, hs))
     return
